@@ -21,6 +21,7 @@ package main
 //  peer_ping                  [0, pong]
 //  peer_addr n                [0, peers]
 //  peer_close / peer_reset / peer_silence  [0]
+//  peer_close_stop r          [0, hit, returned, runReturned, reconnected]   close (r=1: reset), Stop inside the restart shutdown
 //  sleep ms                   [0]
 //  age s                      [0, restarted]           every stored request time is aged by s seconds
 //  hold k                     [0]                      k: 1 HandleTx, 3 HandleHeaders, 100 output fetcher
@@ -565,6 +566,43 @@ func runShutdown(c *Case) ([]Obs, any) {
 				}
 				peer.mu.Unlock()
 				return Obs{OK}
+			case "peer_close_stop":
+				// the peer closes (0) / resets (1) the connection; Stop is called exactly when the run loop is
+				// inside the shutdown that precedes the reconnect: restart requested (needsRestart, stopping)
+				// and the connection already closed and cleared by Run
+				peer.mu.Lock()
+				if peer.conn != nil {
+					if tc, ok := peer.conn.(*net.TCPConn); ok && op.Int(0) != 0 {
+						tc.SetLinger(0)
+					}
+					peer.conn.Close()
+					peer.conn = nil
+				}
+				peer.mu.Unlock()
+				hit := false
+				deadline := time.Now().Add(react)
+				for !hit && time.Now().Before(deadline) {
+					stopping, _, needs := node.VerifFlags()
+					hit = stopping && needs && node.VerifConnNil()
+					if !hit {
+						time.Sleep(time.Millisecond)
+					}
+				}
+				startStop()
+				ret := waitChan(stopDone, bound)
+				run := false
+				if ret {
+					run = waitChan(runDone, time.Second)
+				}
+				reconn := false
+				if peer.ln != nil {
+					peer.ln.SetDeadline(time.Now().Add(500 * time.Millisecond))
+					if cn, err := peer.ln.Accept(); err == nil {
+						reconn = true
+						cn.Close()
+					}
+				}
+				return Obs{OK, b2i(hit), b2i(ret), b2i(run), b2i(reconn)}
 			case "peer_silence":
 				peer.mu.Lock()
 				peer.silent = true
